@@ -14,10 +14,10 @@ import c04_w3 as W
 PROP = "C04"
 LEVEL = "proof"
 GEN_UNITS = ["GenUtils3", "GenMethods", "GenUtils"]      # Props/C04Gen.v: sparse region read (all modes) and key dispatch over the GENERATED tt_renumberdim / tt_renumber / get_index_variant; Model/C04AsIs.v over tt_irenumber
-COQ_TARGETS = ["Props/C04.vo", "Props/C04Gen.vo", "Model/C04Harness.vo", "Model/C04Extra.vo", "Model/C04AsIs.vo", "Model/C04AdvVal.vo", "Model/C04W4Harness.vo", "Model/Harness.vo", "Props/W3C04.vo", "Props/W3Methods.vo"]
-THEOREM_FILES = ["Props/C04.v", "Props/C04Gen.v", "Props/W3C04.v", "Props/W3Methods.v"]
+COQ_TARGETS = ["Props/C04.vo", "Props/C04Gen.vo", "Props/C04Impl.vo", "Model/C04Harness.vo", "Model/C04Extra.vo", "Model/C04AsIs.vo", "Model/C04AdvVal.vo", "Model/C04W4Harness.vo", "Model/C04W5Harness.vo", "Model/Harness.vo", "Props/W3C04.vo", "Props/W3Methods.vo"]
+THEOREM_FILES = ["Props/C04.v", "Props/C04Gen.v", "Props/C04Impl.v", "Props/W3C04.v", "Props/W3Methods.v"]
 COQ_IMPORTS = ("From Coq Require Import List ZArith Bool.\n"
-               "From PV Require Import Base.Index Np.Array Model.Sparse Model.Harness Model.C04Model Model.C04Harness Model.C04Extra Model.C04AsIs Model.C04AdvVal Model.C04W4Harness.\n")
+               "From PV Require Import Base.Index Np.Array Model.Sparse Model.Harness Model.C04Model Model.C04Harness Model.C04Extra Model.C04AsIs Model.C04AdvVal Model.C04W4Harness Model.C04W5Harness.\n")
 RULE = ("a case is a HISTORY of 1-14 reads/writes applied to a dense and a sparse tensor from the same start state "
         "(empty, dense random, sparse with random stored order); after every step the returned value and the full raw state "
         "(shape,data | shape,subs,vals) are compared with the Coq model. Keys: full subscripts (negative ints), subscript arrays "
@@ -898,6 +898,10 @@ def _class_expr(a, o, cls):
             parts.append(f"start_sparse_ok {st0} {want0}")
         obs = "[" + "; ".join(f"({_g_sparse_state(s['state'])}, {U.g_xout(None if s['exc'] else s['out'])})" for s in steps) + "]"
         parts.append(f"{'check_sparse_den' if W.order_free(a) else 'check_sparse'} {st0} {U.g_ops(ops)} {obs}")
+        if any(op[0] == "set" and op[1][0] == "subs" for op in ops):
+            # wave 5: every S[subs] = vals step RAW against the transliteration of sptensor._set_subscripts (Model/C04SpSetImpl.v over
+            # the generated tt_ismember_rows), stepped from the raw state pyttb showed before the call
+            parts.append(f"check_sparse_impl {st0} {U.g_ops(ops)} {obs}")
     return " && ".join(f"({p})" for p in parts)
 
 
